@@ -18,9 +18,17 @@ use std::net::{TcpListener, TcpStream};
 use std::path::{Path, PathBuf};
 use std::rc::Rc;
 use std::sync::atomic::{AtomicBool, Ordering};
+#[cfg(wilfred_garden_verif)]
+use crate::verif_sim::shim::mpsc::{self, Receiver, RecvTimeoutError, Sender};
+#[cfg(not(wilfred_garden_verif))]
 use std::sync::mpsc::{self, Receiver, RecvTimeoutError, Sender};
 use std::sync::{Arc, Mutex, Weak};
 use std::time::{Duration, Instant};
+#[cfg(wilfred_garden_verif)]
+use crate::verif_sim::shim::thread;
+#[cfg(wilfred_garden_verif)]
+use std::fs;
+#[cfg(not(wilfred_garden_verif))]
 use std::{fs, thread};
 
 use serde_bencode::value::Value;
@@ -828,6 +836,8 @@ fn sigint_watchdog(
             guard.retain(|w| match w.upgrade() {
                 Some(arc) => {
                     arc.store(true, Ordering::SeqCst);
+                    #[cfg(wilfred_garden_verif)]
+                    crate::verif_sim::probe_watchdog_store(&arc);
                     true
                 }
                 None => false,
@@ -851,6 +861,8 @@ fn session_worker(
     while let Ok(req) = request_rx.recv() {
         // Clear any stray interrupt set while the session was idle.
         interrupted.store(false, Ordering::SeqCst);
+        #[cfg(wilfred_garden_verif)]
+        crate::verif_sim::probe_worker_reset(&interrupted);
 
         let stdout_buf = Arc::new(Mutex::new(String::new()));
         let stderr_buf = Arc::new(Mutex::new(String::new()));
@@ -1644,6 +1656,10 @@ pub(crate) fn run_nrepl(host: &str, port: u16, interrupted: Arc<AtomicBool>) {
         }
     }
 }
+
+#[cfg(wilfred_garden_verif)]
+#[path = "/verif/sim/src/nrepl_api.rs"]
+pub(crate) mod verif_api;
 
 #[cfg(test)]
 mod tests {
